@@ -236,6 +236,11 @@ fn same_class(a: &Viol, b: &Viol) -> bool {
 pub fn minimise(rep: &Replay, engine: Engine, images: usize, max_secs: u64) -> Replay {
     let start = Instant::now();
     let mut best = rep.clone();
+    // the driver sets this when a minimisation attempt killed the process (a shrunk variant can
+    // turn a caught panic into one that cannot unwind): report the run as found
+    if std::env::var_os("VERIF_NO_MIN").is_some() {
+        return best;
+    }
     let check = |plan: &Plan, ex: &Extra| -> Option<(Viol, Extra)> {
         // first try the same crash point / fault case, then a fresh search
         if engine != Engine::Conf {
@@ -741,9 +746,10 @@ pub fn cli(args: &[String]) -> i32 {
             let seed = std::env::var("VERIF_SEED").ok().and_then(|s| s.parse().ok()).unwrap_or(DEFAULT_SEED);
             let bad = AtomicU64::new(0);
             let next = AtomicU64::new(0);
-            let props = ["C01", "C02", "C06", "C07", "C08", "C13", "C17", "C20"];
+            let props = ["C01", "C02", "C06", "C07", "C08", "C09", "C13", "C17", "C20"];
+            let workers: usize = get("--threads").and_then(|s| s.parse().ok()).unwrap_or(8);
             std::thread::scope(|sc| {
-                for _ in 0..8 {
+                for _ in 0..workers {
                     sc.spawn(|| loop {
                         let i = next.fetch_add(1, Ordering::Relaxed);
                         if i >= n * props.len() as u64 {
@@ -765,7 +771,10 @@ pub fn cli(args: &[String]) -> i32 {
                         .unwrap();
                         let va = a.viol.as_ref().map(|v| (v.0.clone(), v.1.clone()));
                         let vb = b.viol.as_ref().map(|v| (v.0.clone(), v.1.clone()));
-                        if a.hash != b.hash || va != vb || a.exec.api_calls != b.exec.api_calls || a.crash.images != b.crash.images {
+                        // every counter, every reach probe, every crash statistic must agree as well
+                        let ca = (serde_json::to_string(&a.exec).unwrap(), serde_json::to_string(&a.crash).unwrap());
+                        let cb = (serde_json::to_string(&b.exec).unwrap(), serde_json::to_string(&b.crash).unwrap());
+                        if a.hash != b.hash || va != vb || ca != cb {
                             println!("NONDETERMINISM prop={prop} run={i}: oplog {:x}/{:x}", a.hash, b.hash);
                             bad.fetch_add(1, Ordering::Relaxed);
                         }
